@@ -193,7 +193,7 @@ def run(tier):
     if quick:
         jobs += [("producer", i, 30) for i in range(3)] + [("seeds", i, 150) for i in range(2)] + [("cmap", 0, 260)]
     else:
-        jobs += [("producer", i, 400) for i in range(11)] + [("seeds", i, 2200) for i in range(3)] + [("cmap", i, 2500) for i in range(2)]
+        jobs += [("producer", i, 340) for i in range(11)] + [("seeds", i, 1900) for i in range(3)] + [("cmap", i, 2500) for i in range(2)]
 
     def one(job):
         if job[0] == "guard-on":
